@@ -50,21 +50,65 @@ type cop struct {
 
 const signerLockWaitLine = "signer/validator_signer.go:60" // val.Lock() inside SimpleSigner.lock, reached with mapLock held
 
-// signerDeadlocked: some goroutine waits for a per-account mutex inside SimpleSigner.lock. It holds the
-// signer's map mutex meanwhile, and the owner of the per-account mutex needs that map mutex (RLock in
-// unlock) to release it: the wait is permanent.
-func signerDeadlocked() bool {
-	buf := make([]byte, 4<<20)
+// frozen: goroutines of earlier cases that are stuck in SimpleSigner.lock for good (they stay in every later dump).
+var frozen = map[string]bool{}
+
+func goroutineID(block string) string {
+	// "goroutine 123 [sync.RWMutex.Lock]:"
+	if !strings.HasPrefix(block, "goroutine ") {
+		return ""
+	}
+	rest := block[len("goroutine "):]
+	if i := strings.IndexByte(rest, ' '); i > 0 {
+		return rest[:i]
+	}
+	return ""
+}
+
+// signerDeadlocked: some goroutine (of the current case) waits for a per-account mutex inside
+// SimpleSigner.lock. It holds the signer's map mutex meanwhile, and the owner of the per-account mutex
+// needs that map mutex (RLock in unlock) to release it: the wait is permanent.
+func signerDeadlocked() (bool, string) {
+	buf := make([]byte, 8<<20)
 	n := runtime.Stack(buf, true)
-	for _, g := range strings.Split(string(buf[:n]), "\n\n") {
+	found := false
+	dump := string(buf[:n])
+	for _, g := range strings.Split(dump, "\n\n") {
 		if strings.Contains(g, signerLockWaitLine) && strings.Contains(g, "(*SimpleSigner).lock") {
-			return true
+			id := goroutineID(g)
+			if id != "" && !frozen[id] {
+				frozen[id] = true
+				found = true
+			}
 		}
 	}
-	return false
+	return found, dump
+}
+
+// relevantStacks keeps the goroutines that are inside the code under test (diagnostics of an unexplained hang).
+func relevantStacks(dump string) string {
+	var sb strings.Builder
+	for _, g := range strings.Split(dump, "\n\n") {
+		id := goroutineID(g)
+		if frozen[id] {
+			continue
+		}
+		if strings.Contains(g, "bloxapp/ssv/ekm") || strings.Contains(g, "eth2-key-manager") {
+			if len(g) > 1500 {
+				g = g[:1500]
+			}
+			sb.WriteString(g)
+			sb.WriteString("\n\n")
+		}
+		if sb.Len() > 8000 {
+			break
+		}
+	}
+	return sb.String()
 }
 
 func runConcLane(c *evid.Case) {
+	limitProcs(4)
 	if !realEpochOK() {
 		c.Inconclusive("wall clock before/near mainnet genesis")
 		return
@@ -315,18 +359,24 @@ wait:
 		case <-allDone:
 			break wait
 		case <-tick.C:
-			if signerDeadlocked() {
+			dl, dump := signerDeadlocked()
+			if dl {
 				// no new step may start; calls in flight either return or run into the frozen signer within
 				// milliseconds (every path takes the wallet lock or the signer's map lock)
 				mu.Lock()
 				stopped = true
 				mu.Unlock()
 				time.Sleep(150 * time.Millisecond)
+				w.fdb.setInner(deadDB{}) // stragglers of a frozen signer must not touch the child's shared store any more
 				deadlocked = true
 				break wait
 			}
-			if time.Since(began) > 60*time.Second {
-				c.Inconclusive("conc: goroutines did not finish within the 60s watchdog and no signer lock wait was found")
+			if time.Since(began) > 120*time.Second {
+				mu.Lock()
+				stopped = true
+				mu.Unlock()
+				w.fdb.setInner(deadDB{})
+				c.Inconclusive("conc: goroutines did not finish within the 120s watchdog and no signer lock wait was found; stacks inside the code under test:\n" + relevantStacks(dump))
 				return
 			}
 		}
@@ -347,12 +397,7 @@ wait:
 		snap[i] = *o
 	}
 	mu.Unlock()
-	if deadlocked {
-		// the frozen goroutines keep the old signer alive; cut its path to the (shared) store
-		defer func() {
-			w.fdb.setInner(deadDB{})
-		}()
-	}
+
 	released := func(kind string, sh int) []cop {
 		var l []cop
 		for _, o := range snap {
